@@ -72,8 +72,25 @@ def alphabet(ut=True, scalars=True):
         if_(["not", ["or", [CMP("<", V(N), C(1)), CMP(">", V(M), C(1))]]]),
         {"op": "fail"},
         {"op": "switch", "to": "p1"},
+        {"op": "switch", "to": "p0"},                                   # a phase switching to itself
+        {"op": "restart"},
     ]
     return a
+
+
+def transition_family():
+    """Every way a step of p0 can end (runs through, fails, switches to itself / to the other phase, restarts), under
+    a guard that changes from step to step, for both default successors: [(calls of p0, default successor of p0)]."""
+    out = []
+    ends = [None, {"op": "fail"}, {"op": "switch", "to": "p0"}, {"op": "switch", "to": "p1"}, {"op": "restart"}]
+    for nxt in ("p0", "p1"):
+        for end in ends:
+            for guard in (CMP("<", V(N), C(2)), CMP(">=", V(N), C(2)), None):
+                body = [assign(N, S(V(N), C(1))), yield_(V(Y))]
+                if end is not None:
+                    body += ([if_(guard), end, {"op": "endif"}] if guard is not None else [end])
+                out.append((body + ([assign(M, S(V(M), C(1)))] if guard is not None or end is None else []), nxt))
+    return out
 
 
 # The second phase also fixes the kinds of the persistent inputs for kind inference (a persistent variable that
